@@ -8,4 +8,12 @@ CLAIMED = {
   "text": "Bounded symbolic model checking of the real Select pipeline (LoadView of a temporary table, Select, OrderBy incl. std sort.Sort interpreted from SSA, Offset, Limit, Fix) driven by parsed statements: n<=3 rows (thorough 4) with NULL or arbitrary-int64 keys, every direction / NULLS position, arbitrary int64 LIMIT/OFFSET, WITH TIES, integral PERCENT in [-5,205] plus a 120-row table for PERCENT up to 400; oracle is the definition of sorted sub-permutation / window / ties.",
   "note": "Trusted: z3, go/ssa, the interpreter (validated per run by native replay). PERCENT uses exact-rational floats justified for integral percentages (DESIGN.md 2.5); float/string/datetime keys, multi-key ORDER BY and tables beyond the stated sizes are outside.",
  },
+ "C06": {
+  "text": "Bounded symbolic model checking of value.CompareCombinedly and the six relational operators on every ordered pair of operand classes (NULL, Integer and Float with fully symbolic payloads incl. NaN/Inf/-0/int64 bounds, Boolean, Ternary, Datetime with symbolic seconds, 24 representative strings) against a reference ladder written from the manual's conversion table, plus the mutual-consistency laws; Kleene tables of the ternary package; query.Calculate on all class pairs and operators (exact-rational floats on integral operands below 2^26: NULL/Integer/Float typing, division-by-zero error, integer/float agreement, sign and magnitude of %); and BETWEEN/IN/ANY/ALL/CASE/IS/AND/OR/NOT against their documented expansions through the real parser and Evaluate.",
+  "note": "Trusted: z3 (incl. its FloatingPoint theory), go/ssa, the interpreter (validated per run). Strings are enumerated representatives, not symbolic (strconv.ParseFloat is not encodable); float arithmetic is claimed only on integral operands below 2^26; LIKE and the datetime parser are outside.",
+ },
+ "C12": {
+  "text": "Bounded symbolic model checking of the arithmetic that makes parallel results order-independent: GoroutineTaskManager.RecordRange yields ordered, contiguous, disjoint ranges covering [0,n) for every n < 2^31, worker count and worker index (mathematical integers with discharged no-overflow obligations), and GoroutineManager.AssignRoutineNumber stays within 1..cpu and max(1, n/threshold) for every load.",
+  "note": "Trusted: z3, go/ssa, the interpreter (validated per run). This is the range lemma only (DESIGN.md C12a); schedule- and map-order independence of the operators is covered by the C12 harnesses that enable schedule/map-order forking where registered; --cpu beyond the modelled worker counts and the real Go scheduler are outside.",
+ },
 }
